@@ -46,6 +46,20 @@ Theorem C26_row_holds_guard : forall a m, acc_ok a = true -> guard_map (fst (fst
 Proof. exact acc_ok_guard. Qed.
 Print Assumptions C26_row_holds_guard.
 
+(* ownership of inserted paths (locktab rule P): no call site hands the same *route.Path object to
+   LocRIB.AddPath / AdjRIBIn.AddPath more than once (loop, twice) or writes it after the insertion,
+   except the listed sites (none) *)
+Theorem C26_no_shared_path_insertions : forall r, In r shared_path_sites -> shared_exc r <> None.
+Proof. exact no_shared_path_insertions. Qed.
+Print Assumptions C26_no_shared_path_insertions.
+
+(* goroutine lifecycle (locktab rule J): every function that addresses a goroutine of its type through a channel
+   or WaitGroup field waits for it (blocking rendezvous or WaitGroup.Wait) -- a teardown that only closes
+   the channel is a violation row --, except the listed sites (none) *)
+Theorem C26_goroutines_joined_on_teardown : forall r, In r goroutine_joins -> join_waits r = true \/ join_exc r <> None.
+Proof. exact goroutines_joined_on_teardown. Qed.
+Print Assumptions C26_goroutines_joined_on_teardown.
+
 (* lifting: threads whose accesses to guarded fields all hold the guard (what the table says of every
    non-excepted site) never perform two accesses to a guarded field from different threads that are
    not ordered by release / acquire of its guard *)
